@@ -40,6 +40,9 @@ type vhSess struct {
 func vhSessSetup(keepSession, rwSplit, readOnly bool) *vhSess {
 	s := &vhSess{led: &backend.VhLedger{}, masters: map[string]*backend.VhPool{}, slaves: map[string]*backend.VhPool{}}
 	script := func(c *backend.VhConn, op string, arg string) error {
+		if c.Closed {
+			return errors.New("connection is closed") // nothing works on a broken connection
+		}
 		if op == s.faultOp {
 			s.seen++
 			if s.seen-1 == s.faultNth {
@@ -67,8 +70,14 @@ func vhSessSetup(keepSession, rwSplit, readOnly bool) *vhSess {
 			}
 			return false
 		}
-		mp := &backend.VhPool{Name: name + "-master", Master: true, Ledger: s.led, Script: script, GetFails: getFails}
-		sp := &backend.VhPool{Name: name + "-slave", Ledger: s.led, Script: script, GetFails: getFails}
+		big := func(c *backend.VhConn, sql string) (*mysql.Result, error) {
+			if sql == "select big" {
+				c.MoreRows = true // the result is larger than the streaming threshold
+			}
+			return &mysql.Result{}, nil
+		}
+		mp := &backend.VhPool{Name: name + "-master", Master: true, Ledger: s.led, Script: script, GetFails: getFails, ExecResult: big}
+		sp := &backend.VhPool{Name: name + "-slave", Ledger: s.led, Script: script, GetFails: getFails, ExecResult: big}
 		s.masters[name], s.slaves[name] = mp, sp
 		slices[name] = &backend.Slice{Namespace: "ns",
 			Master: &backend.DBInfo{Nodes: []*backend.NodeInfo{{Address: mp.Name, ConnPool: mp, Status: backend.StatusUp, Weight: 1}}},
@@ -204,8 +213,8 @@ func vhSessRun(prop string, keepSession bool, k int, withFaults bool) {
 				}
 			}
 		}
-		cmd := vs.Choice("command", 9)
-		vs.TagB("statementRightAfterReload", reloadedNow && cmd >= 5 && cmd <= 7)
+		cmd := vs.Choice("command", 10)
+		vs.TagB("statementRightAfterReload", reloadedNow && (cmd >= 5 && cmd <= 7 || cmd == 9))
 		mark := s.mark()
 		var touched []string
 		var err error
@@ -242,6 +251,19 @@ func vhSessRun(prop string, keepSession bool, k int, withFaults bool) {
 			rc.SetFromSlave(rwSplit)
 			_, err = se.ExecuteSQL(rc, "s0", "db", "select * from u")
 			touched = []string{"s0"}
+		case 9: // unsharded read on s0 whose result is streamed (the connection stays with the session until the client has read it)
+			rc := util.NewRequestContext()
+			rc.SetFromSlave(rwSplit)
+			_, err = se.ExecuteSQL(rc, "s0", "db", "select big")
+			touched = []string{"s0"}
+			if s.cc.continueConn != nil {
+				// what Session.writeResponse does: stream to the end, then give the connection up
+				if vc, ok := s.cc.continueConn.(*backend.VhConn); ok {
+					vc.MoreRows = false
+				}
+				se.recycleContinueConn(s.cc.continueConn)
+				s.cc.continueConn = nil
+			}
 		case 8: // SAVEPOINT sp1 (replayed on every connection the transaction takes later)
 			err = se.handleSavepoint(&ast.SavepointStmt{Savepoint: "sp1"})
 		case 7: // sharded statement on both slices
@@ -268,6 +290,7 @@ func vhSessRun(prop string, keepSession bool, k int, withFaults bool) {
 					txConn[sl] = c
 				}
 				if prop == "C23" && keepSession {
+					vs.Assert(c.Recycled <= 1, "C23/connection-returned-only-once")
 					if prev, ok := ksConn[sl]; ok {
 						vs.Assert(prev == c, "C23/keep-session-client-stays-on-its-connection")
 					}
@@ -296,7 +319,7 @@ func vhSessRun(prop string, keepSession bool, k int, withFaults bool) {
 	vs.Cover(prop + "/session-done")
 }
 
-//verif:harness prop=C18 bounds="one session (no keep-session) of a read/write user, a read/write-splitting user or a read-only user on a namespace with two slices (scripted master and replica pools, no faults): every sequence of k=3 (quick) / 4 (thorough) commands from {BEGIN, COMMIT, ROLLBACK, SET autocommit=0, SET autocommit=1, unsharded write on slice 0, unsharded read on slice 0, sharded write on both slices, SAVEPOINT}, then disconnect; driven through the real handleBegin / handleCommit / handleRollback / handleSetAutoCommit / ExecuteSQL / ExecuteSQLs"
+//verif:harness prop=C18 bounds="one session (no keep-session) of a read/write user, a read/write-splitting user or a read-only user on a namespace with two slices (scripted master and replica pools, no faults): every sequence of k=3 (quick) / 4 (thorough) commands from {BEGIN, COMMIT, ROLLBACK, SET autocommit=0, SET autocommit=1, unsharded write on slice 0, unsharded read on slice 0, sharded write on both slices, SAVEPOINT, unsharded read with a streamed result}, then disconnect; driven through the real handleBegin / handleCommit / handleRollback / handleSetAutoCommit / ExecuteSQL / ExecuteSQLs"
 //verif:mock (*github.com/XiaoMi/Gaea/proxy/server.Manager).RecordBackendSQLMetrics vhSessRecordMetrics
 func Harness_C18_TransactionConnections() {
 	vhSessRun("C18", false, vs.Pick(3, 4), false)
